@@ -19,12 +19,12 @@ CHECKS = {
              'Runs whose values leave the exact dyadic number domain are SKIPped (counted), never judged.',
         ref='DESIGN.md 5 C08'),
     'C09': dict(
-        technique='TLC self-composition model checking (MC_Budget) and liveness (MC_Jump) + TLC trace validation of '
+        technique='TLC self-composition model checking (MC_Budget) and liveness (MC_Jump) + Apalache inductive invariant (BudgetInd) + TLC trace validation of '
                   'real runs under every limit (Trace_Core) + budget laws evaluated by TLC on recorded run families '
                   '(Trace_Budget)',
         text='MC_Budget runs every statement list <= N under a limit and without one in lock step and checks Exact, '
              'SameWhileRunning, PrefixInv, SameWhenWithin, AbortJustified; MC_Jump checks termination under fairness for '
-             'positive limits. Real programs (jump lists, loops, recursion, library callbacks, data-helper expressions '
+             'positive limits; Apalache discharges the inductive invariant of the abstract counter machine BudgetInd (unbounded). Real programs (jump lists, loops, recursion, library callbacks, data-helper expressions '
              'with and without variables, nested includes) are executed under every limit 1..N+2 and 0; each run must be a '
              'behaviour of BareCore with the exact counter at every probe, and each family must satisfy the budget laws.',
         note='Trusted: TLC, alpha/gamma, the real parser for the structured C09 programs (their lowering is C01\'s '
